@@ -358,6 +358,26 @@ def _alpha(fn: ast.AST, subst: dict[str, str]) -> list[str]:
                 return ast.copy_location(ast.Call(func=ast.Name(id='COMPILE', ctx=ast.Load()), args=n.args, keywords=[]), n)
             return n
 
+        def visit_BinOp(self, n: ast.BinOp) -> ast.AST:
+            self.generic_visit(n)
+            if isinstance(n.op, ast.BitOr):
+                # canonical order for commutative flag unions
+                ops: list[ast.AST] = []
+
+                def flat(x: ast.AST) -> None:
+                    if isinstance(x, ast.BinOp) and isinstance(x.op, ast.BitOr):
+                        flat(x.left)
+                        flat(x.right)
+                    else:
+                        ops.append(x)
+                flat(n)
+                ops.sort(key=norm_src)
+                cur = ops[0]
+                for o in ops[1:]:
+                    cur = ast.BinOp(left=cur, op=ast.BitOr(), right=o)
+                return ast.copy_location(cur, n)
+            return n
+
         def visit_Attribute(self, n: ast.Attribute) -> ast.AST:
             self.generic_visit(n)
             if n.attr == 'pattern' and isinstance(n.value, ast.Subscript) and norm_src(n.value) in ('negative[0]', 'positive[0]'):
@@ -383,7 +403,7 @@ def rule_translate_compile_siblings(ctx: Ctx, rule: str) -> None:
     b = _alpha(cp.node, {'compile_pattern': 'SELF', 'RE_NO_DIR': 'NODIR_NIX', 'RE_WIN_NO_DIR': 'NODIR_WIN', 'ptype': 'K'})
     extra = [s for s in a if s not in b]
     missing = [s for s in b if s not in a]
-    ok = extra == ['flags = (flags | _TRANSLATE) & FLAG_MASK'] and not missing
+    ok = extra == ['flags = (_TRANSLATE | flags) & FLAG_MASK'] and not missing  # operands of `|` are sorted by _alpha
     ctx.ob(rule, f'{WP}:translate~compile_pattern', ok, repo.loc(WP, tr.node), 'identical up to the compile step and the _TRANSLATE statement',
            'equal' if ok else f'only in translate: {[e[:70] for e in extra]}; only in compile_pattern: {[m[:70] for m in missing]}',
            witness="translate(p) and compile(p) must route, count and default identically")
